@@ -23,6 +23,7 @@ CHECKS = {
     "C12": (gen_checks.c12, gen_checks.replay_proxy),
     "C13": (idl_checks.c13, idl_checks.replay_idl),
     "C14": (idl_checks.c14, idl_checks.replay_idl),
+    "C15": (gen_checks.c15, gen_checks.replay_codegen),
     "C16": (gen_checks.c16, gen_checks.replay_introspect),
     "C17": (write_checks.c17, write_checks.replay_writing),
     "C18": (server_checks.c18, server_checks.replay_server),
